@@ -139,4 +139,72 @@ theorem narrows_of_consecutive (d : Nat) (t : T α) : ∀ (spans : List (Nat × 
     · simp only [List.map_cons, narrows, he, ih1]
     · simp only [List.map_cons, List.sum_cons]; omega
 
+/-! ### shared / memmap `out=` -/
+
+
+theorem writeRows_length (out : List β) (s : Nat) (item out' : List β) (h : writeRows out s item = some out') :
+    out'.length = out.length := by
+  unfold writeRows at h
+  split at h
+  · rename_i hle
+    simp only [Option.some.injEq] at h
+    subst h
+    simp; omega
+  · simp at h
+
+/-- with consecutive spans, writing every worker's result into *its own piece* of a shared buffer is
+    the running-offset loop -/
+theorem mapSharedOut_eq_reassemble : ∀ (spans : List (Nat × Nat)) (results : List (Option (List β))) (start b : Nat) (out : List β),
+    Consecutive start spans b → b ≤ out.length → spans.length = results.length →
+    (∀ x ∈ spans.zip results, ∀ item, x.2 = some item → item.length = x.1.2 - x.1.1) →
+    mapSharedOut out ((spans.map fun p => Piece.rng p.1 p.2).zip results)
+      = reassembleOut start out ((spans.map fun p => p.2 - p.1).zip results) := by
+  intro spans
+  induction spans with
+  | nil => intro results start b out _ _ _ _; simp [mapSharedOut, reassembleOut]
+  | cons p rest ih =>
+    intro results start b out hc hb hl hw
+    obtain ⟨s, e⟩ := p
+    cases results with
+    | nil => simp at hl
+    | cons r rs =>
+      obtain ⟨h1, h2, h3⟩ := hc
+      subst h1
+      have hl' : rest.length = rs.length := by simpa using hl
+      have hw' : ∀ x ∈ rest.zip rs, ∀ item, x.2 = some item → item.length = x.1.2 - x.1.1 :=
+        fun x hx => hw x (by simp only [List.zip_cons_cons, List.mem_cons]; right; exact hx)
+      -- e ≤ b
+      have heb : e ≤ b := by
+        have : ∀ (l : List (Nat × Nat)) (a c : Nat), Consecutive a l c → a ≤ c := by
+          intro l
+          induction l with
+          | nil => intro a c h; simp only [Consecutive] at h; omega
+          | cons q qs ihq =>
+            intro a c h
+            obtain ⟨q1, q2⟩ := q
+            obtain ⟨g1, g2, g3⟩ := h
+            have := ihq q2 c g3
+            omega
+        exact this rest e b h3
+      simp only [List.map_cons, List.zip_cons_cons, mapSharedOut, reassembleOut]
+      cases r with
+      | none =>
+        simp only [writePiece, reassembleOut]
+        have he : s + (e - s) = e := by omega
+        rw [he]
+        exact ih rs e b out h3 hb hl' hw'
+      | some item =>
+        have hlen : item.length = e - s := hw ((s, e), some item) (by simp) item rfl
+        have hmin : min e out.length - s = e - s := by omega
+        simp only [writePiece, hmin, hlen, if_true, reassembleOut]
+        cases hwr : writeRows out s item with
+        | none => rfl
+        | some out' =>
+          simp only
+          have hlo := writeRows_length out s item out' hwr
+          have he : s + (e - s) = e := by omega
+          rw [he]
+          exact ih rs e b out' h3 (by omega) hl' hw'
+
+
 end TdVerif.C12
